@@ -50,7 +50,7 @@ std::vector<Pt> routePts(const Avoid::PolyLine &r) { std::vector<Pt> v; for (aut
 
 RouterSession::End RouterSession::endFromJson(const Json &j) {
     End e;
-    if (j.has("pt")) { e.kind = 0; e.pt = Pt{j["pt"][0].num(), j["pt"][1].num()}; e.dirs = (unsigned)j.i("dirs", 15); }
+    if (j.has("pt")) { e.kind = 0; e.pt = Pt{j["pt"][0].num(), j["pt"][1].num()}; e.dirs = (unsigned)j.i("dirs", 15); if (e.dirs != 15) everRestrictedEnds.push_back(e.pt); }
     else if (j.has("shape")) { e.kind = 1; e.shape = (int)j["shape"].i(); e.cls = (int)j.i("cls", 1); }
     else if (j.has("junction")) { e.kind = 2; e.junction = (int)j["junction"].i(); }
     return e;
@@ -316,7 +316,23 @@ void RouterSession::checkOptimality(const char *when) {
             double best = ho.solve(c.e[0].pt, c.e[1].pt, pen);
             probe("router.c05-compared");
             if (best < 0) continue;
-            if (cost > best + 1e-6) violate("C05", "min-cost", "costlier-than-grid-optimum", fmt("conn %d after %s: cost %.6f (len %.6f, %d bends, penalty %g) vs grid optimum %.6f;%s", kv.first, when, cost, len, (int)r.size() - 2, pen, best, describeScene().c_str()));
+            std::string csig = "costlier-than-grid-optimum";
+            if (cost > best + 1e-6) {
+                // does every optimum pass through a free end of another connector that may be left along one axis only?  (no
+                // perpendicular scan line is generated through such an end, and the vertices either side of it are joined by
+                // special-cased visibility edges only)
+                HananOracle h2 = ho;
+                for (auto &ov : conns) if (ov.first != kv.first && ov.second.alive) for (int k = 0; k < 2; k++) if (ov.second.e[k].kind == 0 && ov.second.e[k].dirs != 15) h2.blocked.push_back(ov.second.e[k].pt);
+                if (!h2.blocked.empty()) { double b2 = h2.solve(c.e[0].pt, c.e[1].pt, pen); if ((b2 < 0 || b2 > best + 1e-6) && (b2 < 0 || cost <= b2 + 1e-6)) csig += ":every-optimum-passes-through-another-connectors-direction-restricted-end"; }
+                if (csig.find(':') == std::string::npos) {
+                    // (a connector deleted since, or its end moved away, leaves the route computed beside it in place: nothing
+                    // invalidates it -- so every position that ever carried such an end in this session counts)
+                    bool onLine = false;
+                    for (auto &bq : everRestrictedEnds) if (!((bq.x == c.e[0].pt.x && bq.y == c.e[0].pt.y) || (bq.x == c.e[1].pt.x && bq.y == c.e[1].pt.y))) for (int k = 0; k < 2; k++) if (bq.x == c.e[k].pt.x || bq.y == c.e[k].pt.y) onLine = true;
+                    if (onLine) csig += ":another-connectors-direction-restricted-end-on-an-end-points-scan-line";
+                }
+            }
+            if (cost > best + 1e-6) violate("C05", "min-cost", csig, fmt("conn %d after %s: cost %.6f (len %.6f, %d bends, penalty %g) vs grid optimum %.6f;%s", kv.first, when, cost, len, (int)r.size() - 2, pen, best, describeScene().c_str()));
             else if (cost < best - 1e-6) violate("HARNESS", "oracle-gap", "C05-route-cheaper-than-grid-oracle", fmt("conn %d: %.9f < %.9f;%s", kv.first, cost, best, describeScene().c_str()));
         }
     }
